@@ -49,6 +49,8 @@ type Mini struct {
 	Call func(m *Mini, call *ast.CallExpr, fn *types.Func, recv MV, args []MV) (res []MV, ok bool)
 	// Sel gives meaning to a field selection on an opaque value.
 	Sel func(m *Mini, sel *ast.SelectorExpr, base MV) (MV, bool)
+	// Index gives meaning to an index expression x[i].
+	Index func(m *Mini, x *ast.IndexExpr) (MV, bool)
 	// Range gives the (key, value) of the single symbolic iteration of a range loop.
 	Range func(m *Mini, rs *ast.RangeStmt) (k, v MV, ok bool)
 	steps int
@@ -656,6 +658,13 @@ func (m *Mini) expr(x ast.Expr, env *menv) MV {
 	case *ast.TypeAssertExpr:
 		v := m.expr(x.X, env)
 		return v
+	case *ast.IndexExpr:
+		if m.Index != nil {
+			if v, ok := m.Index(m, x); ok {
+				return v
+			}
+		}
+		m.fail(x, "index expression outside the abstraction")
 	case *ast.FuncLit:
 		return &MSym{Name: "func"}
 	}
@@ -707,7 +716,7 @@ func (m *Mini) call(call *ast.CallExpr, env *menv) []MV {
 	if fn != nil {
 		if fd := m.P.Decl(fn); fd != nil && fd.Body != nil && m.depth < 8 {
 			pk := m.P.PkgOf(fn)
-			sub := &Mini{P: m.P, Info: pk.TypesInfo, Call: m.Call, Sel: m.Sel, Range: m.Range, depth: m.depth + 1}
+			sub := &Mini{P: m.P, Info: pk.TypesInfo, Call: m.Call, Sel: m.Sel, Range: m.Range, Index: m.Index, depth: m.depth + 1}
 			bind := map[types.Object]MV{}
 			if fd.Recv != nil && len(fd.Recv.List) > 0 && len(fd.Recv.List[0].Names) > 0 {
 				bind[pk.TypesInfo.Defs[fd.Recv.List[0].Names[0]]] = recv
